@@ -161,7 +161,25 @@ func execOp(p *prog, t []string) (outcome string, res []string) {
 		case "CNewUint64":
 			p.vars[atoi(t[1])] = c.NewUint64(atou(t[2]))
 		case "CNilOperand":
-			c.Add(v(t[1]), nil, v(t[1]))
+			// a run-time error that is not an ErrNaN, through each recovering operation
+			k := 0
+			if len(t) > 2 {
+				k = atoi(t[2])
+			}
+			switch k {
+			case 1:
+				c.Sub(v(t[1]), nil, v(t[1]))
+			case 2:
+				c.Mul(v(t[1]), nil, v(t[1]))
+			case 3:
+				c.Quo(v(t[1]), nil, v(t[1]))
+			case 4:
+				c.FMA(v(t[1]), nil, v(t[1]), v(t[1]))
+			case 5:
+				c.Sqrt(v(t[1]), nil)
+			default:
+				c.Add(v(t[1]), nil, v(t[1]))
+			}
 		default:
 			panic("unknown context op " + t[0])
 		}
@@ -398,10 +416,6 @@ func processLine(line string, w *bufio.Writer) {
 		}
 	}
 	if p.par != nil {
-		for _, o := range p.parops {
-			out, res := execOp(p, o)
-			p.parwant = append(p.parwant, append([]string{out}, res...))
-		}
 		mism, opchg := runParallel(p, snap)
 		fmt.Fprintf(w, "%s %d Par ok %d %d\n", p.pid, len(p.ops), mism, opchg)
 	}
@@ -434,10 +448,12 @@ func runParallel(p *prog, snap []decimal.VerifRaw) (mism, opchg int) {
 	ps := p.par
 	old := runtime.GOMAXPROCS(ps.procs)
 	defer runtime.GOMAXPROCS(old)
-	want := make([]decimal.VerifRaw, ps.nrecv)
-	for i := 0; i < ps.nrecv; i++ {
-		want[i] = decimal.VerifGet(p.vars[i])
+	type outcomeT struct {
+		crashed bool
+		recv    []decimal.VerifRaw
+		res     []string
 	}
+	var outcomes []outcomeT
 	shared := p.vars[ps.nrecv:]
 	var wg sync.WaitGroup
 	var mu sync.Mutex
@@ -466,35 +482,49 @@ func runParallel(p *prog, snap []decimal.VerifRaw) (mism, opchg int) {
 					q.vars = append(q.vars, d)
 				}
 				q.vars = append(q.vars, shared...)
-				bad := 0
+				var oc outcomeT
 				for _, o := range p.ops {
 					if out, _ := execOp(q, o); out == "crash" {
-						bad++
+						oc.crashed = true
 						break
 					}
 				}
-				for i, o := range p.parops {
+				for _, o := range p.parops {
 					out, res := execOp(q, o)
-					got := append([]string{out}, res...)
-					if strings.Join(got, " ") != strings.Join(p.parwant[i], " ") {
-						bad++
-					}
+					oc.res = append(oc.res, strings.Join(append([]string{out}, res...), " "))
 				}
 				for i := 0; i < ps.nrecv; i++ {
-					if !sameRaw(decimal.VerifGet(q.vars[i]), want[i]) {
-						bad++
-					}
+					oc.recv = append(oc.recv, decimal.VerifGet(q.vars[i]))
 				}
-				if bad > 0 {
-					mu.Lock()
-					mism += bad
-					mu.Unlock()
-				}
+				mu.Lock()
+				outcomes = append(outcomes, oc)
+				mu.Unlock()
 			}
 		}(g)
 	}
 	wg.Wait()
 	close(done)
+	// sequential reference, computed after the parallel phase
+	var pwant []string
+	for _, o := range p.parops {
+		out, res := execOp(p, o)
+		pwant = append(pwant, strings.Join(append([]string{out}, res...), " "))
+	}
+	for _, oc := range outcomes {
+		if oc.crashed {
+			mism++
+		}
+		for i := range pwant {
+			if i >= len(oc.res) || oc.res[i] != pwant[i] {
+				mism++
+			}
+		}
+		for i := 0; i < ps.nrecv; i++ {
+			if !sameRaw(oc.recv[i], decimal.VerifGet(p.vars[i])) {
+				mism++
+			}
+		}
+	}
 	for i, d := range shared {
 		if !sameRaw(decimal.VerifGet(d), snap[ps.nrecv+i]) {
 			opchg++
